@@ -22,7 +22,8 @@ pub fn components_table() -> serde_json::Value {
         ],
         "characterised_by_experiment": {
             "what": "packages/beff-wasm/ts-node/bundler.ts of the working tree is type-stripped and run under Node with the committed tsc-slim resolver (stand-ins for the wasm package, chalk, code-frame); js/hostprobe.mjs asks it whether resolve_import keeps positive / negative answers from one build to the next and whether a kept answer survives the deletion of its file; SimHost mirrors what was seen. The resolver model is compared with the real resolveModuleName on 400 seeded file layouts",
-            "host_model": host_model_json()
+            "host_model": host_model_json(),
+            "js_host_leg_of_C14": json_file("hostleg.json")
         },
         "stub": [
             "bundler.ts host functions + commandeer.ts watch loop + chokidar + tsc-slim resolveModuleName -> SimHost / deliver(f) / resolve_in (written from the sources, cache lifetime and resolver answers checked against the real code by js/hostprobe.mjs)",
@@ -34,6 +35,10 @@ pub fn components_table() -> serde_json::Value {
     })
 }
 
+fn json_file(name: &str) -> serde_json::Value {
+    let p = format!("{}/out/{}", coord::home(), name);
+    std::fs::read_to_string(p).ok().and_then(|s| serde_json::from_str(&s).ok()).unwrap_or(serde_json::json!({"ran": false}))
+}
 fn host_model_json() -> serde_json::Value {
     let p = format!("{}/out/host_model.json", coord::home());
     std::fs::read_to_string(p).ok().and_then(|s| serde_json::from_str(&s).ok()).unwrap_or(serde_json::json!({"characterised": false}))
